@@ -443,3 +443,17 @@ Proof.
     intros F. cbn [repeat]. rewrite B by lia. reflexivity.
 Qed.
 Example served_ex : served_connections 2 0 4 = [true; true; false; false]. Proof. reflexivity. Qed.
+
+(* ---- the accept loop ------------------------------------------------------------------ *)
+
+Definition is_conn (e : accept_event) : bool := match e with AcConn => true | _ => false end.
+
+(* when accept errors do not end the loop every connection is served, whatever
+   happened to the attempts before it *)
+Lemma accept_loop_serves_all evs : accept_loop_gen false evs = map is_conn evs.
+Proof. induction evs as [|e t IH]; [reflexivity|]. destruct e; cbn [accept_loop_gen map is_conn]; rewrite IH; reflexivity. Qed.
+
+(* ... and when they do, one aborted attempt leaves every later client unserved *)
+Lemma accept_loop_stopping_refuted :
+  accept_loop_gen true [AcConn; AcError 0; AcConn; AcConn] = [true; false; false; false].
+Proof. reflexivity. Qed.
